@@ -1,3 +1,3 @@
 SPECIFICATION Spec
-CONSTANT NameSpaces = TRUE
+CONSTANT NameSpaces = FALSE
 INVARIANT NoCaptureEitherWay
